@@ -52,3 +52,11 @@ chk('C16', 'translation_validation',
     'decided under the path condition), each flagged card bounding a converted cell must have exactly one entry.',
     TV_NOTE + '; known finding F2 (entries carry the MCNP number verbatim) is listed in known_findings.json',
     TV_TECH, 'DESIGN.md 4/C16')
+
+chk('C05', 'translation_validation',
+    'Decks with universes and FILL (every transformation spelling: none, (ox oy oz), (n), 12 numbers, *FILL angles, container TRCL, '
+    'TRCL + FILL transformation; nesting; one universe in two containers) with symbolic placements, container sizes and filler offsets go '
+    'through the real pipeline under symbolic execution (cache hits, surface coincidences and re-classifications are solver forks). Per path '
+    'and per (filler, container) provenance label z3 proves, with the point symbolic, that the written volumes cover exactly '
+    'region_container(p) and region_filler(T^-1 p) (and deeper levels) and carry the composition of the innermost filler.',
+    TV_NOTE + '; rotations from a finite exact set, at most 3 symbolic numbers per deck', TV_TECH, 'DESIGN.md 4/C05')
